@@ -85,6 +85,16 @@ CLASSES["MamQueryIq"] = [("QXmppMamIq.cpp", "QXmppMamQueryIq::parseElementFromCh
 SUBSCRIPTION = pair("QXmppPubSubSubscription.cpp", "QXmppPubSubSubscription", 1, "parse")
 for v in ("", "Event", "Owner"):
     CLASSES["PubSubSubscription" + v] = SUBSCRIPTION
+CLASSES["Iq"] = [("QXmppIq.cpp", "QXmppIq::parse", 1), ("QXmppIq.cpp", "QXmppIq::parseElementFromChild", 1), ("QXmppIq.cpp", "QXmppIq::toXml", 1),
+                 ("QXmppStanza.cpp", "QXmppStanza::parse", 1), "@StanzaError"]
+STANZA_EXT = [("QXmppStanza.cpp", "QXmppStanza::parse", 1), ("QXmppStanza.cpp", "QXmppStanza::extensionsToXml", 1), "@StanzaError", "@ExtendedAddress"]
+CLASSES["Presence"] = [("QXmppPresence.cpp", "QXmppPresence::parse", 1), ("QXmppPresence.cpp", "QXmppPresence::parseExtension", 1),
+                       ("QXmppPresence.cpp", "QXmppPresence::toXml", 1), "@MucItem"] + STANZA_EXT
+CLASSES["Message"] = [("QXmppMessage.cpp", "QXmppMessage::parse", 2), ("QXmppMessage.cpp", "QXmppMessage::parseExtensions", 1),
+                      ("QXmppMessage.cpp", "QXmppMessage::parseExtension", 1), ("QXmppMessage.cpp", "QXmppMessage::toXml", 2),
+                      ("QXmppMessage.cpp", "QXmppMessage::serializeExtensions", 1), "@MixInvitation", "@TrustMessageElement", "@OutOfBandUrl"] + STANZA_EXT
+CLASSES["JingleRtpEncryption"] = pair("QXmppJingleData.cpp", "QXmppJingleRtpEncryption", 1, "parse") + pair("QXmppJingleData.cpp", "QXmppJingleRtpCryptoElement", 1, "parse") + [
+    ("QXmppJingleData.cpp", "QXmppJingleRtpCryptoElement::isJingleRtpCryptoElement", 1)]
 PUBSUB = [("QXmppPubSubIq.cpp", "PubSubIqBase::parseElementFromChild", 1), ("QXmppPubSubIq.cpp", "PubSubIqBase::toXmlElementFromChild", 1)]
 for v in ("Unsubscribe", "Subscribe", "Options", "Create", "Delete", "Purge", "Configure", "Default", "OwnerDefault"):
     CLASSES["PubSubIq" + v] = PUBSUB
